@@ -62,9 +62,14 @@ impl InferShapes for Slice {
                     && let Some(SymExpr::Value(step)) = step
                     && let SymExpr::Value(size) = dims[axis]
                 {
-                    let end = match *end {
-                        i32::MAX => None,
-                        end => Some(end as isize),
+                    // An end of `i32::MAX` (or `i32::MIN` for a negative step)
+                    // is the saturated form of "slice to the end". This does
+                    // not apply to `i32::MAX` with a negative step, which
+                    // selects nothing from a start within the dimension.
+                    let end = match (*end, *step) {
+                        (i32::MAX, step) if step > 0 => None,
+                        (i32::MIN, step) if step < 0 => None,
+                        (end, _) => Some(end as isize),
                     };
 
                     let range = SliceRange::new(*start as isize, end, *step as isize);
